@@ -7,6 +7,7 @@ import (
 	"os"
 	"os/exec"
 	"path/filepath"
+	"runtime"
 	"sort"
 	"strings"
 	"sync"
@@ -21,15 +22,39 @@ import (
 // it finishes it; the master restarts it after a crash / watchdog kill and re-queues the batch that was
 // in flight as single-module batches.
 
+// BatchOpt: how a batch is linted, when not "once, every rule enabled".
+type BatchOpt struct {
+	// Large: a LARGE single-call run (>= 1000 small files in ONE Lint call): what only shows with many per-file
+	// goroutines in one call (unsynchronised writes to the shared report, pools, chunking). Processed before everything
+	// else, alone in its worker process; a crash is narrowed by halving, never re-queued module by module.
+	Large bool `json:"large,omitempty"`
+	// RuleSets: after the call with every rule enabled, one Lint call per entry with exactly these rules enabled
+	// ("any subset of rules"; few rules = short evaluations = the per-file goroutines finish together)
+	RuleSets [][]string `json:"rule_sets,omitempty"`
+	NoAll    bool       `json:"no_all,omitempty"` // skip the call with every rule enabled (the modules get that in their ordinary batches)
+	Rounds   int        `json:"rounds,omitempty"` // the whole sequence is repeated this many times (>= 1)
+	// Shifts (C07): the k values for this batch instead of the job's (quick tier: families of many tiny modules whose point
+	// is the bounds check of the unshifted text get one shift instead of four)
+	Shifts []int `json:"shifts,omitempty"`
+}
+
 type Job struct {
 	Batches [][]Module `json:"batches"`
-	Shifts  []int      `json:"shifts"`  // C07: k values; empty for C03
-	Locate  bool       `json:"locate"`  // C07: check bounds/text
-	Timeout int        `json:"timeout"` // seconds per Lint call
-	Detail  int        `json:"detail"`  // max issues of one kind+rule reported in full per batch
-	Par     int        `json:"par"`     // batches processed concurrently inside the worker
-	Todo    []int      `json:"todo"`    // indices of the batches this worker run has to process
+	Opts    []BatchOpt `json:"opts,omitempty"` // parallel to Batches (missing = zero value)
+	Shifts  []int      `json:"shifts"`         // C07: k values; empty for C03
+	Locate  bool       `json:"locate"`         // C07: check bounds/text
+	Timeout int        `json:"timeout"`        // seconds per Lint call
+	Detail  int        `json:"detail"`         // max issues of one kind+rule reported in full per batch
+	Par     int        `json:"par"`            // batches processed concurrently inside the worker
+	Todo    []int      `json:"todo"`           // indices of the batches this worker run has to process
 	noShift bool
+}
+
+func (j *Job) opt(i int) BatchOpt {
+	if i >= 0 && i < len(j.Opts) {
+		return j.Opts[i]
+	}
+	return BatchOpt{}
 }
 
 type BatchResult struct {
@@ -37,6 +62,7 @@ type BatchResult struct {
 	Start       bool           `json:"start,omitempty"`
 	N           int            `json:"n"`
 	Unparsed    []string       `json:"unparsed,omitempty"` // srcs outside the domain
+	Oracle      map[string]int `json:"oracle,omitempty"`   // linted modules by the Rego version they were parsed as
 	Millis      int64          `json:"ms"`
 	Lints       int            `json:"lints"`
 	Failures    []Failure      `json:"failures,omitempty"`
@@ -155,16 +181,51 @@ func takeBisectBudget() bool {
 }
 
 func runBatch(idx int, mods []Module, job *Job) BatchResult {
+	if o := job.opt(idx); len(o.Shifts) > 0 && job.Locate && len(job.Shifts) > 0 {
+		j := *job
+		j.Shifts = o.Shifts
+		job = &j
+	}
 	res := BatchResult{Batch: idx, N: len(mods), ByRule: map[string]int{}}
 	t0 := time.Now()
 	timeout := time.Duration(job.Timeout) * time.Second
 	var parsed []Parsed
+	if !job.noShift {
+		res.Oracle = map[string]int{}
+	}
 	for _, m := range mods {
-		if p, ok := Parse(m); ok {
+		p, ok, which, rejected := ParseChecked(m)
+		if res.Oracle != nil && ok {
+			res.Oracle[which]++
+		}
+		switch {
+		case ok:
 			parsed = append(parsed, p)
-		} else {
+		case rejected != nil:
+			// in the domain (OPA's parser accepts it) and regal cannot even parse it: the run is lost for every file
+			minimisedMu.Lock()
+			first := !minimised[rejected.Key]
+			minimised[rejected.Key] = true
+			minimisedMu.Unlock()
+			if first {
+				key := rejected.Key
+				rejected.Modules[0] = MinimiseRaw(m, func(mm Module) bool {
+					_, o, _, rj := ParseChecked(mm)
+					return !o && rj != nil && rj.Key == key
+				}, 120)
+				if _, _, _, rj := ParseChecked(rejected.Modules[0]); rj != nil {
+					rejected.Err = rj.Err
+				}
+			}
+			res.Failures = append(res.Failures, *rejected)
+		default:
 			res.Unparsed = append(res.Unparsed, m.Src)
 		}
+	}
+	if opt := job.opt(idx); opt.Large || len(opt.RuleSets) > 0 {
+		runLarge(&res, parsed, opt, timeout)
+		res.Millis = time.Since(t0).Milliseconds()
+		return res
 	}
 	// modules whose shifted text does not parse (a byte-order mark must stay first) are outside the domain
 	// of the shift relation: they are linted and bounds-checked in a batch of their own, without shifts
@@ -203,6 +264,8 @@ func runBatch(idx int, mods []Module, job *Job) BatchResult {
 			r1.AggTextDiff += r2.AggTextDiff
 			r1.LocIssues = append(r1.LocIssues, r2.LocIssues...)
 			r1.Unparsed = append(r1.Unparsed, res.Unparsed...)
+			r1.Failures = append(r1.Failures, res.Failures...)
+			r1.Oracle = res.Oracle
 			r1.Millis = time.Since(t0).Milliseconds()
 			return r1
 		}
@@ -361,9 +424,120 @@ func runBatch(idx int, mods []Module, job *Job) BatchResult {
 	return res
 }
 
+// runLarge: the rounds of a large single-call run. Every call must return a report that covers every file.
+func runLarge(res *BatchResult, parsed []Parsed, opt BatchOpt, timeout time.Duration) {
+	rounds := opt.Rounds
+	if rounds < 1 {
+		rounds = 1
+	}
+	sets := append([][]string{nil}, opt.RuleSets...)
+	if opt.NoAll && len(opt.RuleSets) > 0 {
+		sets = opt.RuleSets
+	}
+	for round := 0; round < rounds && len(parsed) > 0; round++ {
+		for _, rs := range sets {
+			if len(parsed) == 0 {
+				break
+			}
+			rs := rs
+			lint := func(ms []Parsed) Outcome { return LintBatchRules(ms, timeout, rs) }
+			out := lint(parsed)
+			res.Lints++
+			if out.Err == "" {
+				if out.Report.Summary.FilesScanned != len(parsed) {
+					fl := Failure{Key: "large run: the report does not cover every file", Opt: &BatchOpt{Large: true, RuleSets: [][]string{rs}, NoAll: rs != nil},
+						Err: fmt.Sprintf("files_scanned=%d for %d files in one Lint call (rules: %v)", out.Report.Summary.FilesScanned, len(parsed), rs)}
+					for _, p := range parsed {
+						fl.Modules = append(fl.Modules, p.Module)
+					}
+					res.Failures = append(res.Failures, fl)
+				}
+				if rs == nil && round == 0 {
+					res.Violations = len(out.Report.Violations)
+					for _, v := range out.Report.Violations {
+						res.ByRule[v.Category+"/"+v.Title]++
+					}
+				}
+				continue
+			}
+			fl := Failure{Key: FailureKey(out.Err), Err: out.Err, Timeout: out.Timeout}
+			if !out.Timeout && takeBisectBudget() {
+				if b := BisectWith(parsed, lint); len(b.Modules) > 0 {
+					fl = b
+					fl.Key = FailureKey(fl.Err)
+				}
+				res.Lints += 8
+			}
+			if len(fl.Modules) == 0 {
+				for _, p := range parsed {
+					fl.Modules = append(fl.Modules, p.Module)
+				}
+			}
+			fl.Opt = &BatchOpt{Large: len(fl.Modules) > 200, RuleSets: [][]string{rs}, NoAll: true}
+			if rs == nil {
+				fl.Opt.RuleSets, fl.Opt.NoAll = nil, false
+			}
+			res.Failures = append(res.Failures, fl)
+			bad := map[string]bool{}
+			for _, m := range fl.Modules {
+				bad[m.Name] = true
+			}
+			var rest []Parsed
+			for _, p := range parsed {
+				if !bad[p.Name] {
+					rest = append(rest, p)
+				}
+			}
+			parsed = rest
+		}
+	}
+}
+
 // RunMaster runs the job in worker subprocesses and returns one result per batch (batches re-queued after a
-// crash are appended as single-module batches).
+// crash are appended as single-module batches). The large single-call batches are run by a master of their own,
+// next to the one for the ordinary batches: each large batch has a worker process to itself, and the machine is
+// busy while it runs, as it is when a project of that size is linted.
 func RunMaster(self, tmp string, job *Job, watchdog time.Duration) []BatchResult {
+	var li, ri []int
+	for i := range job.Batches {
+		if job.opt(i).Large {
+			li = append(li, i)
+		} else {
+			ri = append(ri, i)
+		}
+	}
+	if len(li) == 0 || len(ri) == 0 {
+		return runMaster(self, tmp, job, watchdog)
+	}
+	sub := func(idx []int, dir string) (*Job, string) {
+		j := *job
+		j.Batches, j.Opts = nil, nil
+		for _, i := range idx {
+			j.Batches = append(j.Batches, job.Batches[i])
+			j.Opts = append(j.Opts, job.opt(i))
+		}
+		d := filepath.Join(tmp, dir)
+		if err := os.MkdirAll(d, 0o755); err != nil {
+			panic(err)
+		}
+		return &j, d
+	}
+	jl, dl := sub(li, "large")
+	jr, dr := sub(ri, "ordinary")
+	var rl, rr []BatchResult
+	var wg sync.WaitGroup
+	wg.Add(2)
+	go func() { defer wg.Done(); rl = runMaster(self, dl, jl, watchdog) }()
+	go func() { defer wg.Done(); rr = runMaster(self, dr, jr, watchdog) }()
+	wg.Wait()
+	res := append(rr, rl...)
+	for i := range res {
+		res[i].Batch = i
+	}
+	return res
+}
+
+func runMaster(self, tmp string, job *Job, watchdog time.Duration) []BatchResult {
 	results := map[int]BatchResult{}
 	crashFailures := 0
 	nOriginal := len(job.Batches)
@@ -384,11 +558,21 @@ func RunMaster(self, tmp string, job *Job, watchdog time.Duration) []BatchResult
 		jp := filepath.Join(tmp, fmt.Sprintf("job_%d.json", round))
 		op := filepath.Join(tmp, fmt.Sprintf("out_%d.jsonl", round))
 		job.Todo = todo
+		savedPar := job.Par
+		for _, i := range todo {
+			if job.opt(i).Large {
+				// a large single-call run has a worker process to itself: whatever dies, dies because of it
+				job.Todo, job.Par = []int{i}, 1
+				break
+			}
+		}
 		jb, _ := json.Marshal(job)
+		job.Par = savedPar
 		if err := os.WriteFile(jp, jb, 0o644); err != nil {
 			panic(err)
 		}
 		cmd := exec.Command(self, "worker", jp, op)
+		cmd.Env = workerEnv()
 		var tail tailBuf
 		cmd.Stdout = &tail
 		cmd.Stderr = &tail
@@ -451,15 +635,49 @@ func RunMaster(self, tmp string, job *Job, watchdog time.Duration) []BatchResult
 			inf = append(inf, i)
 		}
 		sort.Ints(inf)
+		onlyLarge := len(inf) > 0
+		if key := FailureKey(why); !killed && len(inf) > 0 && isConcurrencyCrash(key) {
+			// concurrent map writes, a race report, a broken lock: the signature says that goroutines of ONE Lint call collided.
+			// No single module is the culprit, so nothing is re-queued module by module (every module alone would pass, after
+			// hundreds of single-module calls): the batches in flight are the witnesses, the smallest one narrowed by halving
+			crashFailures++
+			small := inf[0]
+			for _, i := range inf {
+				if len(job.Batches[i]) < len(job.Batches[small]) {
+					small = i
+				}
+			}
+			for _, i := range inf {
+				b, o := job.Batches[i], job.opt(i)
+				if i == small {
+					b = shrinkLargeCrash(self, tmp, job, b, o, key)
+				}
+				results[i] = BatchResult{Batch: i, N: len(b), Crash: why, Failures: []Failure{{Key: key, Modules: b, Err: why, Opt: &o}}}
+			}
+			inf = nil
+		}
 		for _, i := range inf {
 			// the worker died (or was killed) while this batch was in flight
 			b := job.Batches[i]
+			if opt := job.opt(i); opt.Large {
+				// runtime fatals (concurrent map writes), panics and race reports of a large run depend on how many per-file
+				// goroutines meet, not on one module: narrow the batch by halving (each probe in a fresh process, tried twice)
+				crashFailures++
+				key := FailureKey(why)
+				if !killed {
+					b = shrinkLargeCrash(self, tmp, job, b, opt, key)
+				}
+				o := opt
+				results[i] = BatchResult{Batch: i, N: len(b), Crash: why,
+					Failures: []Failure{{Key: key, Modules: b, Err: why, Timeout: killed, Opt: &o}}}
+				continue
+			}
+			onlyLarge = false
 			if len(b) == 1 && len(inf) == 1 {
 				crashFailures++
 				key := FailureKey(why)
-				if !killed && !crashMinimised[key] {
+				if !killed && firstCrashWitness(key) {
 					// the culprit is known: shrink it (one witness per crash signature), each attempt in a process of its own
-					crashMinimised[key] = true
 					m := MinimiseText(b[0], func(p Parsed) bool {
 						c, w := crashesAlone(self, tmp, job, p.Module)
 						return c && FailureKey(w) == key
@@ -479,7 +697,7 @@ func RunMaster(self, tmp string, job *Job, watchdog time.Duration) []BatchResult
 				}
 			}
 		}
-		if len(inf) > 0 {
+		if len(inf) > 0 && !onlyLarge {
 			job.Par = 1 // after a crash continue one batch at a time so that the culprit is unambiguous
 		}
 		// batches re-queued after a crash first: isolating the culprits matters more than finishing the rest
@@ -509,19 +727,58 @@ func RunMaster(self, tmp string, job *Job, watchdog time.Duration) []BatchResult
 
 var (
 	crashMinimised = map[string]bool{}
+	crashMu        sync.Mutex
 	crashProbeSeq  int
 )
+
+func firstCrashWitness(key string) bool {
+	crashMu.Lock()
+	defer crashMu.Unlock()
+	if crashMinimised[key] {
+		return false
+	}
+	crashMinimised[key] = true
+	return true
+}
+
+func nextProbe() int {
+	crashMu.Lock()
+	defer crashMu.Unlock()
+	crashProbeSeq++
+	return crashProbeSeq
+}
+
+// workerEnv: the worker processes run with at least 16 Ps, whatever the machine: the concurrency of one Lint call
+// (one goroutine per file) is part of what is exercised.
+func workerEnv() []string {
+	env := os.Environ()
+	n := runtime.NumCPU()
+	if n < 16 {
+		n = 16
+	}
+	for _, e := range env {
+		if strings.HasPrefix(e, "GOMAXPROCS=") {
+			return env
+		}
+	}
+	return append(env, fmt.Sprintf("GOMAXPROCS=%d", n))
+}
 
 // crashesAlone runs ONE module through a fresh worker process with the job's settings and reports whether the
 // process died (panic in a goroutine of the linter, fatal error, os.Exit); a hang counts as "did not crash".
 func crashesAlone(self, tmp string, job *Job, m Module) (bool, string) {
-	crashProbeSeq++
+	return crashesBatch(self, tmp, job, []Module{m}, BatchOpt{})
+}
+
+func crashesBatch(self, tmp string, job *Job, ms []Module, opt BatchOpt) (bool, string) {
+	seq := nextProbe()
 	j2 := *job
-	j2.Batches = [][]Module{{m}}
+	j2.Batches = [][]Module{ms}
+	j2.Opts = []BatchOpt{opt}
 	j2.Todo = []int{0}
 	j2.Par = 1
-	jp := filepath.Join(tmp, fmt.Sprintf("probe_%d.json", crashProbeSeq))
-	op := filepath.Join(tmp, fmt.Sprintf("probe_%d.jsonl", crashProbeSeq))
+	jp := filepath.Join(tmp, fmt.Sprintf("probe_%d.json", seq))
+	op := filepath.Join(tmp, fmt.Sprintf("probe_%d.jsonl", seq))
 	jb, _ := json.Marshal(&j2)
 	if err := os.WriteFile(jp, jb, 0o644); err != nil {
 		panic(err)
@@ -529,6 +786,7 @@ func crashesAlone(self, tmp string, job *Job, m Module) (bool, string) {
 	defer os.Remove(jp)
 	defer os.Remove(op)
 	cmd := exec.Command(self, "worker", jp, op)
+	cmd.Env = workerEnv()
 	var tail tailBuf
 	cmd.Stdout = &tail
 	cmd.Stderr = &tail
@@ -548,6 +806,43 @@ func crashesAlone(self, tmp string, job *Job, m Module) (bool, string) {
 		<-done
 		return false, ""
 	}
+}
+
+// isConcurrencyCrash: crash signatures that come from goroutines colliding, not from what one module contains
+func isConcurrencyCrash(key string) bool {
+	for _, k := range []string{"concurrent map", "data race", "unlock of unlocked", "sync: ", "all goroutines are asleep", "negative WaitGroup", "close of closed channel", "send on closed channel"} {
+		if strings.Contains(key, k) {
+			return true
+		}
+	}
+	return false
+}
+
+// shrinkLargeCrash halves a crashing large batch while one half still crashes with the same signature.
+func shrinkLargeCrash(self, tmp string, job *Job, ms []Module, opt BatchOpt, key string) []Module {
+	probes := 0
+	crashes := func(c []Module) bool {
+		for t := 0; t < 2; t++ {
+			probes++
+			if died, w := crashesBatch(self, tmp, job, c, opt); died && FailureKey(w) == key {
+				return true
+			}
+		}
+		return false
+	}
+	for len(ms) >= 4 && probes < 20 {
+		h := len(ms) / 2
+		if crashes(ms[:h]) {
+			ms = ms[:h]
+			continue
+		}
+		if crashes(ms[h:]) {
+			ms = ms[h:]
+			continue
+		}
+		break
+	}
+	return ms
 }
 
 func clip(s string, n int) string {
@@ -597,12 +892,20 @@ type Plan struct {
 	BatchSize    int
 	BundleSample int // 0 = all bundle files
 	SingleFile   int // this many modules are additionally linted alone (single-file mode: no aggregate phase)
-	FamilySample int // 0 = all modules of the systematic families (uncompilable, comment placement), else a sample of each
+	FamilySample int // 0 = all modules of the systematic families (uncompilable, comment placement, quoted rego), else a sample of each
 	Deep         bool
+	BreakShifts  []int // C07: the k values for the line-break family (nil = the job's)
+	QuotedSample int   // cap on the quoted-rego family when FamilySample is 0 (C07 thorough lints every module five times)
+	Large        int   // number of large single-call batches (C03), each of LargeSize small modules
+	LargeSize    int
+	LargeSets    int // rule subsets per large batch (one Lint call each, after the all-rules call)
+	LargeRounds  int
+	LargeOnly    bool // only the large batches (the -race pass of the thorough tier)
 }
 
 type Assembled struct {
 	Batches [][]Module
+	Opts    []BatchOpt // parallel to Batches
 	Counts  map[string]int
 }
 
@@ -680,6 +983,28 @@ func Assemble(r *hutil.Rng, p Plan) Assembled {
 	cpl := sample(CommentPlacementModules(p.Deep))
 	a.Counts["comment_placement"] = len(cpl)
 	a.Batches = append(a.Batches, batchUp(cpl, p.BatchSize)...)
+	// Rego-looking text inside strings, raw strings, comments and METADATA, in v0-only / v1-only / both-version modules,
+	// version detected and configured (gen_quoted.go)
+	quo := QuotedRegoModules(p.Deep)
+	if p.QuotedSample > 0 && p.FamilySample == 0 && p.QuotedSample < len(quo) {
+		hutil.Shuffle(r, quo)
+		quo = quo[:p.QuotedSample]
+		sort.Slice(quo, func(i, j int) bool { return quo[i].Name < quo[j].Name })
+	}
+	quo = sample(quo)
+	a.Counts["quoted_rego"] = len(quo)
+	a.Batches = append(a.Batches, batchUp(quo, p.BatchSize)...)
+	// a line break at every token boundary of rule heads and body expressions (gen_breaks.go): never sampled, the
+	// modules are a few lines each and location helpers index into exactly these rows
+	brk := LineBreakModules(p.Deep)
+	a.Counts["line_breaks"] = len(brk)
+	for _, b := range batchUp(brk, p.BatchSize) {
+		for len(a.Opts) < len(a.Batches) {
+			a.Opts = append(a.Opts, BatchOpt{})
+		}
+		a.Batches = append(a.Batches, b)
+		a.Opts = append(a.Opts, BatchOpt{Shifts: p.BreakShifts})
+	}
 	gen := GenModules(r, p.GenN)
 	a.Counts["gen"] = len(gen)
 	a.Batches = append(a.Batches, batchUp(gen, p.BatchSize)...)
@@ -691,9 +1016,37 @@ func Assemble(r *hutil.Rng, p Plan) Assembled {
 	// single-file mode for a sample: one file per Lint call exercises the path without the aggregate phase
 	all := append(append(append([]Module{}, stress...), gen...), mut...)
 	all = append(append(all, unc...), cpl...)
+	all = append(append(all, quo...), brk...)
 	for i := 0; i < p.SingleFile && len(all) > 0; i++ {
 		a.Batches = append(a.Batches, []Module{all[r.Below(len(all))]})
 		a.Counts["single_file_runs"]++
+	}
+	if p.Large > 0 {
+		// large single-call runs (large.go); drawn last from the generator so that they do not disturb the sequence above
+		// pool: the generated corpora (the stress shapes and mutations hold the numbers of the known float64 finding, which
+		// fails a whole call: those modules have their ordinary batches)
+		pool := append(append(append(append([]Module{}, gen...), unc...), cpl...), quo...)
+		pool = append(pool, brk...)
+		lb, lo := LargeBatches(r, pool, p.Large, p.LargeSize, p.LargeSets, p.LargeRounds)
+		if p.LargeOnly {
+			a.Batches, a.Opts, a.Counts = nil, nil, map[string]int{}
+		}
+		for len(a.Opts) < len(a.Batches) {
+			a.Opts = append(a.Opts, BatchOpt{})
+		}
+		a.Batches = append(a.Batches, lb...)
+		a.Opts = append(a.Opts, lo...)
+		a.Counts["large_batches"] = len(lb)
+		for _, b := range lb {
+			a.Counts["large_modules"] += len(b)
+		}
+		for _, o := range lo {
+			n := 1 + len(o.RuleSets)
+			if o.NoAll {
+				n--
+			}
+			a.Counts["large_lint_calls"] += n * o.Rounds
+		}
 	}
 	return a
 }
